@@ -12,11 +12,12 @@ import (
 	"os"
 	"runtime/debug"
 	"sort"
-	"sync/atomic"
 
 	v1 "k8s.io/api/core/v1"
 	metav1 "k8s.io/apimachinery/pkg/apis/meta/v1"
 	"k8s.io/apimachinery/pkg/util/sets"
+	listerv1 "k8s.io/client-go/listers/core/v1"
+	k8scache "k8s.io/client-go/tools/cache"
 	"k8s.io/klog/v2"
 
 	"verif/harness/internal/vh"
@@ -48,6 +49,7 @@ type traceIn struct {
 	leaves           []traceLeaf
 	limit, minAvail  int64
 	policy, subLimit int64 // policy 0 none, 1 sub-group policy without topology, 2 with hard topology
+	notReady, pin    int64 // notReady: two extra HyperNodes claiming each other; pin: NominatedHyperNode of the first sub-job (0 = none)
 	annot            int64 // leaf HyperNode the scheduler remembers as the job's AllocatedHyperNode (0 = lost by a restart)
 	pods             []tracePod
 }
@@ -61,6 +63,9 @@ func decTrace(in []int64) traceIn {
 	}
 	job := r.list()
 	t.limit, t.minAvail, t.policy, t.subLimit, t.annot = job[0], job[1], job[2], job[3], job[4]
+	if len(job) > 6 {
+		t.notReady, t.pin = job[5], job[6]
+	}
 	np := int(r.next())
 	for i := 0; i < np; i++ {
 		p := r.list()
@@ -76,12 +81,15 @@ type placementGroup struct {
 	nodes    []int64
 }
 type traceOut struct {
-	hnMap  []int64
-	real   []int64
-	groups []placementGroup
-	desc   string
-	sig    string
-	sigRec string
+	notReady bool
+	newBinds int64 // tasks that were pending in the input and are in an allocated status afterwards
+	anyHard  bool
+	hnMap    []int64
+	real     []int64
+	groups   []placementGroup
+	desc     string
+	sig      string
+	sigRec   string
 }
 
 var lastTrace *traceOut
@@ -122,16 +130,11 @@ func runTrace(in []int64) []int64 {
 		}
 		return res
 	}
-	hnMap := map[string]*api.HyperNodeInfo{}
-	byTier := map[int]sets.Set[string]{}
-	real := map[string]sets.Set[string]{}
+	// the HyperNode objects, leaves first; the view is built from them by the real
+	// UpdateHyperNode (below), so the view half and the placement half are composed
+	var hnObjs []*topologyv1alpha1.HyperNode
 	addHN := func(name string, tier int, ty topologyv1alpha1.MemberType, members []string, nodes sets.Set[string]) {
-		hnMap[name] = api.NewHyperNodeInfo(api.BuildHyperNode(name, tier, mem(ty, members...)))
-		if byTier[tier] == nil {
-			byTier[tier] = sets.New[string]()
-		}
-		byTier[tier].Insert(name)
-		real[name] = nodes
+		hnObjs = append(hnObjs, api.BuildHyperNode(name, tier, mem(ty, members...)))
 	}
 	var nodes []*v1.Node
 	nodeIdx := int64(0)
@@ -173,11 +176,13 @@ func runTrace(in []int64) []int64 {
 	switch t.policy {
 	case 1:
 		policies = []schedulingv1.SubGroupPolicySpec{util.BuildSubGroupPolicy("role", []string{"volcano.sh/task-spec"}, "", 0)}
-	case 2:
+	case 2, 3:
 		policies = []schedulingv1.SubGroupPolicySpec{util.BuildSubGroupPolicy("role", []string{"volcano.sh/task-spec"}, "hard", int(t.subLimit))}
 	}
 	var pg *schedulingv1.PodGroup
-	if policies != nil {
+	if t.policy == 3 { // the hard topology sits only in the sub-group policy
+		pg = util.BuildPodGroupWithSubGroupPolicy("pg1", "c1", "", "q1", int32(t.minAvail), nil, schedulingv1.PodGroupInqueue, "", 0, policies)
+	} else if policies != nil {
 		pg = util.BuildPodGroupWithSubGroupPolicy("pg1", "c1", "", "q1", int32(t.minAvail), nil, schedulingv1.PodGroupInqueue, "hard", int(t.limit), policies)
 	} else {
 		pg = util.BuildPodGroupWithNetWorkTopologies("pg1", "c1", "", "q1", int32(t.minAvail), nil, schedulingv1.PodGroupInqueue, "hard", int(t.limit))
@@ -186,10 +191,12 @@ func runTrace(in []int64) []int64 {
 	want := map[string]api.TaskStatus{} // pod name -> status to force in the cache (Binding / Allocated)
 	placed := 0
 	inputPlaced := map[string]bool{}
+	inputStatus := map[string]int64{}
 	for i, p := range t.pods {
 		lbl := map[string]string{"volcano.sh/task-spec": fmt.Sprintf("role%d", p.role)}
 		name := fmt.Sprintf("p%d", i+1)
 		req := api.BuildResourceList("2", "4G")
+		inputStatus[name] = p.running
 		switch p.running {
 		case 0:
 			pod := util.BuildPod("c1", name, "", v1.PodPending, req, "pg1", lbl, nil)
@@ -232,17 +239,34 @@ func runTrace(in []int64) []int64 {
 	}
 	sc.AddPodGroupV1beta1(pg)
 	sc.AddQueueV1beta1(util.BuildQueue("q1", 1, nil))
-	for _, hni := range hnMap {
-		for _, m := range hni.HyperNode.Spec.Members {
-			if m.Type == topologyv1alpha1.MemberTypeHyperNode && m.Selector.ExactMatch != nil {
-				hni.Children.Insert(m.Selector.ExactMatch.Name)
-				hnMap[m.Selector.ExactMatch.Name].Parent = hni.Name
-			}
+	ix := k8scache.NewIndexer(k8scache.MetaNamespaceKeyFunc, k8scache.Indexers{})
+	for _, n := range nodes {
+		ix.Add(n)
+	}
+	view := api.NewHyperNodesInfo(listerv1.NewNodeLister(ix))
+	order := hnObjs
+	if (int(t.depth)+len(t.leaves))%2 == 0 { // parents before their members: placeholders, ancestor rebuilds
+		order = nil
+		for i := len(hnObjs) - 1; i >= 0; i-- {
+			order = append(order, hnObjs[i])
 		}
 	}
-	ready := new(atomic.Bool)
-	ready.Store(true)
-	sc.HyperNodesInfo = api.NewHyperNodesInfoWithCache(hnMap, byTier, real, ready)
+	for _, hn := range order {
+		if err := view.UpdateHyperNode(hn); err != nil {
+			panic("consistent forest rejected: " + err.Error())
+		}
+	}
+	if t.notReady != 0 {
+		// two HyperNodes that list each other: the view must report not ready
+		_ = view.UpdateHyperNode(api.BuildHyperNode("h90", 2, mem(topologyv1alpha1.MemberTypeHyperNode, "h91")))
+		_ = view.UpdateHyperNode(api.BuildHyperNode("h91", 3, mem(topologyv1alpha1.MemberTypeHyperNode, "h90")))
+		if view.Ready() {
+			panic("cycle h90 <-> h91 not reported")
+		}
+	} else if !view.Ready() {
+		panic("consistent forest not ready")
+	}
+	sc.HyperNodesInfo = view
 	// tasks the scheduler has placed but whose pods are not bound yet sit in the cache as
 	// Allocated / Binding (cache.AddBindTask); force those statuses on the cached tasks
 	for _, job := range sc.Jobs {
@@ -312,6 +336,17 @@ func runTrace(in []int64) []int64 {
 			}
 		}
 	}
+	if t.pin != 0 {
+		// gangpreempt / gangreclaim pin a sub-job to a HyperNode (NominatedHyperNode) and its pending
+		// pods to nodes of it; allocate then takes the quick path allocateFromNomination
+		for _, job := range ssn.Jobs {
+			for _, sj := range job.SubJobs {
+				if r, ok := roleOf(sj); ok && (r == 0 || r == 1) {
+					sj.NominatedHyperNode = hnName(t.pin)
+				}
+			}
+		}
+	}
 	conf.EnabledActionMap = map[string]bool{"allocate": true}
 	act := allocate.New()
 	act.Initialize()
@@ -339,7 +374,15 @@ func runTrace(in []int64) []int64 {
 		return ns
 	}
 	desc := ""
+	out.notReady = t.notReady != 0
 	for _, job := range ssn.Jobs {
+		out.anyHard = out.anyHard || job.ContainsHardTopology()
+		for _, task := range job.Tasks {
+			if inputStatus[task.Name] == 0 && task.NodeName != "" &&
+				(task.Status == api.Binding || task.Status == api.Bound || task.Status == api.Running) {
+				out.newBinds++
+			}
+		}
 		if hard, limit := job.IsHardTopologyMode(); hard {
 			out.groups = append(out.groups, placementGroup{false, int64(limit), hnID(job.AllocatedHyperNode), placedOf(job.Tasks)})
 		}
@@ -368,6 +411,18 @@ func runTrace(in []int64) []int64 {
 	// findings D8 (recovery skipped sub-jobs without own topology) and D10 (stale recorder
 	// decisions) are repaired in /repo: their classes carry no signature any more
 	_ = placed
+	if t.pin != 0 {
+		// finding D12: allocateFromNomination places a pinned sub-job without checking the
+		// nominated HyperNode against the job-level candidate / the prior allocation / the tier limit
+		out.sig = "C14-D12-nomination-quick-path-ignores-topology"
+	}
+	if !out.notReady && out.newBinds > 0 {
+		for _, job := range ssn.Jobs {
+			if hard, _ := job.IsHardTopologyMode(); hard && job.AllocatedHyperNode == "" && ssn.JobReady(job) {
+				panic("pods of a hard-topology job were bound but no AllocatedHyperNode is recorded")
+			}
+		}
+	}
 	if os.Getenv("VERIF_C14_DEBUG") != "" {
 		fmt.Fprintln(os.Stderr, "TRACE", desc, out.groups)
 	}
@@ -380,16 +435,21 @@ func traceLaws(law func(lsel int, lin []int64, sig string)) {
 	if o == nil {
 		return
 	}
+	if o.anyHard {
+		law(110, []int64{vh.B(o.notReady), o.newBinds}, "")
+	}
 	for _, g := range o.groups {
 		lin := append(append([]int64{}, o.hnMap...), o.real...)
 		lin = append(lin, g.limit, g.recorded, int64(len(g.nodes)))
 		lin = append(lin, g.nodes...)
 		law(108, lin, o.sig)
-		sr := o.sig
-		if sr == "" && g.sub {
-			sr = o.sigRec
+		law(109, lin, o.sig)
+		// the property text's exact reading; the code records the LCA of the chosen domains (D11)
+		sig113 := o.sig
+		if sig113 == "" {
+			sig113 = "C14-D11-recorded-allocated-hypernode-is-lca-of-chosen-domains-not-of-placements"
 		}
-		law(109, lin, sr)
+		law(113, lin, sig113)
 	}
 }
 
@@ -429,14 +489,22 @@ func genTrace(r *vh.Rng) (in []int64, nontrivial bool, desc any) {
 		nodesOf = append(nodesOf, ns)
 	}
 	limit := int64(r.Range(1, int(depth)))
-	policy := int64(vh.Pick(r, []int{0, 0, 1, 2, 2}))
+	policy := int64(vh.Pick(r, []int{0, 0, 1, 2, 2, 3, 3}))
 	sub := int64(r.Range(1, int(limit)))
 	minAvail := int64(r.Range(1, np))
 	annot := int64(0)
 	if nPlaced > 0 && r.Chance(1, 3) {
 		annot = int64(runLeaf + 1)
 	}
-	in = append(in, 5, limit, minAvail, policy, sub, annot)
+	notReady := int64(0)
+	if r.Chance(1, 6) {
+		notReady = 1
+	}
+	pin := int64(0)
+	if r.Chance(1, 5) {
+		pin = int64(r.Range(1, L)) // a leaf HyperNode: tier 1 is within every limit
+	}
+	in = append(in, 7, limit, minAvail, policy, sub, annot, notReady, pin)
 	in = append(in, int64(np))
 	statuses := []int64{}
 	oneStatus := int64(r.Range(1, 4)) // same allocated status for all placed pods, or a mixture
@@ -463,8 +531,11 @@ func genTrace(r *vh.Rng) (in []int64, nontrivial bool, desc any) {
 		if r.Chance(1, 2) {
 			nom = int64(r.Range(1, int(idx)))
 		}
+		if pin != 0 && (policy == 0 || role == 1) { // pods of the pinned sub-job are nominated inside the pinned leaf
+			nom = vh.Pick(r, nodesOf[pin-1])
+		}
 		in = append(in, 3, 0, nom, role)
 	}
 	return in, true, map[string]any{"depth": depth, "leaves": nodesOf, "limit": limit, "policy": policy, "subLimit": sub,
-		"minAvailable": minAvail, "placed": statuses, "placedLeafFull": full, "remembered": annot}
+		"minAvailable": minAvail, "placed": statuses, "placedLeafFull": full, "remembered": annot, "notReady": notReady, "pinned": pin}
 }
